@@ -19,6 +19,7 @@ import (
 
 	"github.com/ethereum/go-ethereum/log"
 	"github.com/ethereum/go-ethereum/p2p/enr"
+	"github.com/holiman/uint256"
 	"github.com/zen-eth/shisui/portalwire"
 	"verifharness/lib"
 	"verifharness/pnode"
@@ -251,4 +252,68 @@ func directedLegacyAsker(r *lib.Run, idx int) {
 		r.Violation("held-content-not-delivered:utp:version-0-asker-without-version-entry", fmt.Sprintf("none of %d large FINDCONTENT transfers to a version-0 asker without version entry was delivered on a fault-free link: %v", attempts, lastErr),
 			map[string]any{"last_error": fmt.Sprint(lastErr)})
 	}
+}
+
+// Held but outside the advertised radius: the radius only gates what a store admits from now on; after a pruning
+// pass it is smaller than the distance of items the store still holds. A key the node holds yields the stored bytes
+// whatever radius its store reports at the moment - inline and over uTP.
+func directedHeldOutsideRadius(r *lib.Run, idx int) {
+	rng := r.RNG("directed-held-outside-radius", idx)
+	hub := pnode.NewHub()
+	st := pnode.NewKVStore()
+	R, err := hub.StartNode(pnode.NodeOpts{Key: pnode.NewKey(rng), Addr: pnode.Addr4(10, 8, 3, 1, 9000), Network: portalwire.History, Versions: []uint8{0, 1}, Storage: st, MaxUtp: 50, RespTimeout: 2 * time.Second, VersionsTTL: time.Hour})
+	if err != nil {
+		r.FloorMiss("directed held-outside-radius: responder: %v", err)
+		return
+	}
+	defer R.Stop()
+	A, err := hub.StartNode(pnode.NodeOpts{Key: pnode.NewKey(rng), Addr: pnode.Addr4(10, 8, 3, 2, 9001), Network: portalwire.History, Versions: []uint8{0, 1}, MaxUtp: 50, RespTimeout: 2 * time.Second, VersionsTTL: time.Hour})
+	if err != nil {
+		r.FloorMiss("directed held-outside-radius: asker: %v", err)
+		return
+	}
+	defer A.Stop()
+	R.Utp.VerifSetConnConfig(pnode.ShortUtpConfig())
+	A.Utp.VerifSetConnConfig(pnode.ShortUtpConfig())
+	type item struct{ key, val []byte }
+	var items []item
+	for _, n := range []int{0, 1, 500, 1100, 4000, 30000} {
+		key := make([]byte, 33)
+		rng.Read(key)
+		key[0] = 0
+		val := make([]byte, n)
+		rng.Read(val)
+		id := sha256.Sum256(key)
+		_ = st.Put(key, id[:], val)
+		items = append(items, item{key, val})
+	}
+	// the store now reports a radius that covers none of them (what a pruning pass leaves behind for the items it kept
+	// beyond the new boundary; radius 0 and a tiny one)
+	st.SetRadius(uint256.NewInt(uint64(idx % 2)))
+	for _, it := range items {
+		var sel byte
+		var got any
+		var err error
+		for try := 0; try < 2; try++ {
+			sel, got, err = A.P.VerifFindContent(R.Self(), it.key)
+			if err == nil {
+				break
+			}
+		}
+		r.Eval(1)
+		r.Count("directed_held_outside_radius_requests", 1)
+		b, isBytes := got.([]byte)
+		switch {
+		case err != nil:
+			r.Violation("held-content-not-delivered:store-reports-smaller-radius", fmt.Sprintf("the node holds a %d-byte item; with its store reporting radius %d the asker got an error: %v", len(it.val), idx%2, err), map[string]any{"value_len": len(it.val)})
+			return
+		case sel == portalwire.ContentEnrsSelector || !isBytes:
+			r.Violation("held-content-not-delivered:store-reports-smaller-radius", fmt.Sprintf("the node holds a %d-byte item; with its store reporting radius %d it answers with closer records instead of the bytes", len(it.val), idx%2), map[string]any{"value_len": len(it.val), "selector": sel})
+			return
+		case !bytes.Equal(b, it.val):
+			r.Violation("different-bytes:store-reports-smaller-radius", fmt.Sprintf("asker ended up with %d bytes that differ from the %d stored bytes", len(b), len(it.val)), nil)
+			return
+		}
+	}
+	r.Distinct(fmt.Sprintf("directed-held-outside-radius-%d", idx))
 }
